@@ -541,4 +541,97 @@ theorem colBmod_segment_own (cplx segOps : Bool) (jcol fpanelc : Nat) (xsup supn
   unfold colSegment
   rw [if_neg (by simpa using he)]
 
+/-- **C01 (`column_bmod` as a whole: the segment loop, then the column's own supernode).**
+`S k` is the state after `k` iterations of the segment loop (`segsUpTo`; `S 0 = st`).  Hypotheses:
+for every listed representative of another supernode the hypotheses of `colBmod_segment_spec`
+(`SegHyp`, stated on the INITIAL state: they involve `xlusup`, the size of `dense` and the zero prefix
+of `tempv` only, none of which an iteration changes); the panel does not start inside `jcol`'s own
+supernode (`fpanelc ≤ fsupc`; otherwise see `colBmod_spec` in level_note: not proved); and for the
+supernode of `jcol` those of `snodeBmod_spec`.  Then
+(a) iteration `k` performs `SegStep` — the conclusion of `colBmod_segment_spec` for `segrep[nseg-1-k]`
+    — from `S k` to `S (k+1)`: the supernodes update `dense` one after the other in the listed order;
+(b) with `D` the `dense` left by the loop, the routine's final state is that of `snodeBmod_spec` for
+    `D`: column `jcol` of `lusup` holds the forward substitution with the supernode's diagonal block on
+    top and `D[row] − Σ_r L(row,r)·u_r` below, nothing else in `lusup` changed, `dense` is zero on the
+    supernode's rows and `D` elsewhere, `tempv` as before (zero), `xlusup[jcol+1]` set. -/
+theorem colBmod_spec (cplx segOps : Bool) (jcol nseg fpanelc : Nat) (segrep repfnz xsup supno lsub xlsub : Array Nat)
+    (st : SnodeSt K) (S : Nat → SnodeSt K)
+    (hS : S = segsUpTo cplx segOps jcol nseg fpanelc segrep repfnz xsup supno lsub xlsub st)
+    (H : ∀ k, k < nseg → SegHyp jcol fpanelc xsup supno lsub xlsub repfnz segrep[nseg - 1 - k]! st)
+    (fsupc istart nsupr ufirst luptr nsupc : Nat) (e0 : fsupc = xsup[supno[jcol]!]!) (hp : fpanelc ≤ fsupc)
+    (e1 : istart = xlsub[fsupc]!) (e2 : nsupr = xlsub[fsupc + 1]! - istart)
+    (e3 : ufirst = st.xlusup[jcol]!) (e4 : luptr = st.xlusup[fsupc]!) (e5 : nsupc = jcol - fsupc)
+    (hle : fsupc ≤ jcol)
+    (hinj : ∀ t u, t < nsupr → u < nsupr → lsub[istart + t]! = lsub[istart + u]! → t = u)
+    (hrow : ∀ t, t < nsupr → lsub[istart + t]! < st.dense.size)
+    (hcol : ufirst + nsupr ≤ st.lusup.size) (hwid : nsupc ≤ nsupr)
+    (hbefore : luptr + nsupc * nsupr ≤ ufirst)
+    (htv : nsupr - nsupc ≤ st.tempv.size) (htz : ∀ i, i < nsupr - nsupc → st.tempv[i]! = 0) :
+    S 0 = st ∧
+    (∀ k, k < nseg → SegStep jcol fpanelc xsup supno lsub xlsub repfnz segrep[nseg - 1 - k]! (S k) (S (k + 1))) ∧
+    (S nseg).dense.size = st.dense.size ∧
+    (let D := (S nseg).dense
+     let u := fwdSub (fun i r => st.lusup[luptr + (r * nsupr + i)]!) (fun _ => 1) (fun t => D[lsub[istart + t]!]!) nsupc
+     let o := colBmod cplx segOps jcol nseg fpanelc segrep repfnz xsup supno lsub xlsub st
+     o.lusup.size = st.lusup.size ∧
+     (∀ t, t < nsupc → o.lusup[ufirst + t]! = u.getD t 0) ∧
+     (∀ i, nsupc ≤ i → i < nsupr → o.lusup[ufirst + i]! =
+       D[lsub[istart + i]!]! - ∑ r ∈ range nsupc, st.lusup[luptr + (r * nsupr + i)]! * u.getD r 0) ∧
+     (∀ p, (p < ufirst ∨ ufirst + nsupr ≤ p) → o.lusup[p]! = st.lusup[p]!) ∧
+     o.dense.size = st.dense.size ∧
+     (∀ t, t < nsupr → o.dense[lsub[istart + t]!]! = 0) ∧
+     (∀ r, (∀ t, t < nsupr → lsub[istart + t]! ≠ r) → o.dense[r]! = D[r]!) ∧
+     o.tempv.size = st.tempv.size ∧ (∀ i : Nat, o.tempv[i]! = st.tempv[i]!) ∧
+     o.xlusup = st.xlusup.setIfInBounds (jcol + 1) (ufirst + nsupr)) := by
+  subst hS
+  obtain ⟨⟨i1, i2, i3, i4, i5⟩, steps⟩ := colSegments_chain cplx segOps jcol nseg fpanelc segrep repfnz xsup supno lsub xlsub st H nseg (Nat.le_refl _)
+  have hc : colBmod cplx segOps jcol nseg fpanelc segrep repfnz xsup supno lsub xlsub st =
+      snodeBmod cplx jcol fsupc lsub xlsub (segsUpTo cplx segOps jcol nseg fpanelc segrep repfnz xsup supno lsub xlsub st nseg) := by
+    unfold colBmod
+    rw [colSegments_eq_segsUpTo, colTail_eq_snodeBmod _ _ _ _ _ _ _ _ (e0 ▸ hp), ← e0]
+  refine ⟨rfl, steps, i3, ?_⟩
+  intro D u o
+  obtain ⟨a1, a2, a3, a4, a5, a6, a7, a8, a9, a10⟩ := snodeBmod_spec cplx jcol fsupc lsub xlsub
+    (segsUpTo cplx segOps jcol nseg fpanelc segrep repfnz xsup supno lsub xlsub st nseg) istart nsupr ufirst luptr nsupc
+    e1 e2 (by rw [i2]; exact e3) (by rw [i2]; exact e4) e5 hle hinj (fun t ht => by rw [i3]; exact hrow t ht)
+    (by rw [i1]; exact hcol) hwid hbefore (by rw [i4]; exact htv) (fun i hi => by rw [i5]; exact htz i hi)
+  rw [← hc, i1] at a1 a2 a3 a4
+  rw [← hc] at a5 a6 a7 a8 a9 a10
+  rw [i2] at a10
+  exact ⟨a1, a2, a3, a4, a5.trans i3, a6, a7, a8.trans i4, fun i => (a9 i).trans (i5 i), a10⟩
+
+/-! Hypotheses are satisfiable: a finished supernode of 5 columns and 7 rows (columns 0..4), the
+current supernode {5, 6} with 3 rows and `jcol = 6`; one listed segment `krep = 4`, `repfnz[4] = 0`
+(segment size 5: the `lsolve` + `matvec` case), `fpanelc = 0`. -/
+def cXsup : Array Nat := #[0, 5, 7]
+def cSupno : Array Nat := #[0, 0, 0, 0, 0, 1, 1]
+def cXlsub : Array Nat := #[0, 7, 7, 7, 7, 7, 10, 10]
+def cLsub : Array Nat := #[3, 1, 4, 0, 6, 2, 5, 2, 5, 0]
+def cXlusup : Array Nat := #[0, 7, 14, 21, 28, 35, 38, 0]
+def cRepfnz : Array Nat := #[0, 0, 0, 0, 0, 0, 0]
+def cSegrep : Array Nat := #[4]
+def cLusup : Array Rat := (Array.range 41).map fun k => ((((k * 5 + 1) % 3 : Nat) : Int) - 1 : Int)
+def cDense : Array Rat := (Array.range 7).map fun k => ((((k * 3 + 2) % 5 : Nat) : Int) - 2 : Int)
+def cSt : SnodeSt Rat := { lusup := cLusup, xlusup := cXlusup, dense := cDense, tempv := Array.replicate 7 0 }
+def cG : Seg := segGeom 0 cXsup cSupno cXlsub cSt.xlusup cRepfnz 4
+
+example : cG = { lptr := 0, luptr := 0, nsupr := 7, nsupc := 5, nrow := 2, segsze := 5, noZeros := 0, cnt := 2 } := by decide +kernel
+example : (colBmod false true 6 1 0 cSegrep cRepfnz cXsup cSupno cLsub cXlsub cSt).lusup.extract 38 41 = #[11, -12, 5] := by decide +kernel
+example : (colBmod true true 6 1 0 cSegrep cRepfnz cXsup cSupno cLsub cXlsub cSt).lusup.extract 38 41 = #[11, -12, 5] := by decide +kernel
+example : (colSegments false true 6 1 0 cSegrep cRepfnz cXsup cSupno cLsub cXlsub cSt).dense = #[-6, -3, 11, -1, 3, -12, -6] := by decide +kernel
+theorem cG_distinct : ∀ t, t < cG.segsze + cG.nrow → ∀ u, u < cG.segsze + cG.nrow →
+    cLsub[cG.lptr + cG.noZeros + t]! = cLsub[cG.lptr + cG.noZeros + u]! → t = u := by decide +kernel
+theorem cG_ok : SegOK cLsub cG cSt.dense :=
+  ⟨by decide +kernel, by decide +kernel, by decide +kernel, fun t u ht hu => cG_distinct t ht u hu, by decide +kernel⟩
+example := colBmod_segment_spec false true 6 0 cXsup cSupno cLsub cXlsub cRepfnz 4 cSt cG rfl (by decide +kernel) cG_ok
+  (fun _ => by decide +kernel) (fun _ => by decide +kernel)
+theorem cTail_distinct : ∀ t, t < 3 → ∀ u, u < 3 → cLsub[7 + t]! = cLsub[7 + u]! → t = u := by decide +kernel
+example := colBmod_spec false true 6 1 0 cSegrep cRepfnz cXsup cSupno cLsub cXlsub cSt _ rfl
+  (fun k hk => by
+    obtain rfl : k = 0 := by omega
+    exact fun _ => ⟨cG_ok, fun _ => ⟨by decide +kernel, by decide +kernel⟩⟩)
+  5 7 3 38 35 1 (by decide +kernel) (by decide) (by decide +kernel) (by decide +kernel) (by decide +kernel) (by decide +kernel)
+  (by decide) (by decide) (fun t u ht hu => cTail_distinct t ht u hu) (by decide +kernel) (by decide +kernel) (by decide)
+  (by decide) (by decide +kernel) (by decide +kernel)
+
 end Slu.ColBmod
